@@ -107,7 +107,8 @@ Definition on_unlogged (s : state) (x : op) : bool :=
   | Clone r _ | Enter r _ | ScopeBegin r | Record r _ | FollowsFrom r _ | Drop r | Entered r | ExitOwned r
   | Instrument r _ _ | PollBegin r | IntoInner r | Query r _ | WithCollector r _ | InnerAccess r _ | CloneFut r _ =>
       unlogged (val_of d r)
-  | SpanMutSwap f n => unlogged (val_of d f) && unlogged (val_of d n)
+  | CloneDrop r _ => unlogged (val_of d r)
+  | SpanMutSwap f n | CloneFrom f n _ => unlogged (val_of d f) && unlogged (val_of d n)
   | DropGuard g => match find_guard o g with Some e => unlogged (val_of d (e_holder e)) | None => false end
   | ScopeEnd _ | PollEnd _ =>
       match top_frame o (fst x) with Some e => unlogged (val_of d (e_holder e)) | None => false end
